@@ -433,10 +433,92 @@ theorem step_batcher (mode : Coord → Batcher.Mode) (s : State ε) (h : Inv mod
           · exact hb
   · exact h
 
+theorem step_send (mode : Coord → Batcher.Mode) (s : State ε) (h : Inv mode s)
+    (p0 : Coord) (c0 : Endpoint) (body : List ε) :
+    Inv mode (step mode s (.send p0 c0 body)) := by
+  simp only [step]
+  split
+  · rename_i hen
+    simp only [Bool.and_eq_true, List.isEmpty_iff] at hen
+    obtain ⟨hbuf, hroom⟩ := hen
+    unfold sendTo
+    cases hrem : isRemote p0 c0 with
+    | true =>
+      simp only [if_true]
+      refine ⟨⟨h.routed.chan, h.routed.delivered, h.routed.dropped, ?_, h.routed.wire⟩, h.single,
+        h.alive, h.goneEmpty, ?_⟩
+      · intro k m hm
+        simp only [upd] at hm
+        split at hm
+        · subst_vars
+          simp only [List.mem_append, List.mem_map] at hm
+          rcases hm with hm | ⟨b, _, rfl⟩
+          · exact h.routed.mux _ m hm
+          · exact ⟨rfl, hrem⟩
+        · exact h.routed.mux k m hm
+      · intro p c
+        have hb := h.bal p c
+        simp only [Bal, deliveredFrom, droppedFrom, inflight, upd, upd2] at hb ⊢
+        by_cases hpc : p = p0 ∧ c = c0
+        · obtain ⟨rfl, rfl⟩ := hpc
+          rw [hbuf] at hb ⊢
+          simp only [and_self, if_true, proj_append, proj_batches_same]
+          rw [← hb]
+          simp [List.append_assoc]
+        · simp only [hpc, if_false]
+          have hother := proj_batches_other p0 p c0 c (fun ⟨a, b⟩ => hpc ⟨a.symm, b.symm⟩) [body]
+          split
+          · simp only [proj_append, hother, List.append_nil]
+            rename_i hk; rw [← hk]; exact hb
+          · exact hb
+    | false =>
+      have hgone : s.gone c0 = false := by
+        simp only [hasRoom, hrem, Bool.false_eq_true, if_false, Bool.and_eq_true,
+          Bool.not_eq_true'] at hroom
+        exact hroom.2
+      simp only [Bool.false_eq_true, if_false]
+      refine ⟨⟨?_, h.routed.delivered, h.routed.dropped, h.routed.mux, h.routed.wire⟩, h.single,
+        h.alive, ?_, ?_⟩
+      · intro c m hm
+        simp only [upd] at hm
+        split at hm
+        · subst_vars
+          simp only [List.mem_append, List.mem_map] at hm
+          rcases hm with hm | ⟨b, _, rfl⟩
+          · exact h.routed.chan _ m hm
+          · rfl
+        · exact h.routed.chan c m hm
+      · intro c hgc
+        have hgc' : s.gone c = true := hgc
+        simp only [upd]
+        split
+        · rename_i heq; subst heq; rw [hgone] at hgc'; exact absurd hgc' (by simp)
+        · exact h.goneEmpty c hgc'
+      · intro p c
+        have hb := h.bal p c
+        simp only [Bal, deliveredFrom, droppedFrom, inflight, upd, upd2] at hb ⊢
+        by_cases hpc : p = p0 ∧ c = c0
+        · obtain ⟨rfl, rfl⟩ := hpc
+          have hm := mux_local_nil s h.routed p c hrem (connOf p c)
+          have hw := wire_local_nil s h.routed p c hrem (connOf p c)
+          rw [hbuf] at hb ⊢
+          simp only [and_self, if_true, proj_append, proj_batches_same, hm, hw, List.append_nil] at hb ⊢
+          rw [← hb]
+          simp [List.append_assoc]
+        · simp only [hpc, if_false]
+          have hother := proj_batches_other p0 p c0 c (fun ⟨a, b⟩ => hpc ⟨a.symm, b.symm⟩) [body]
+          split
+          · rename_i hc
+            simp only [proj_append, hother, List.append_nil]
+            rw [← hc]; exact hb
+          · exact hb
+  · exact h
+
 theorem step_inv (mode : Coord → Batcher.Mode) (s : State ε) (h : Inv mode s) (mv : Move ε) :
     Inv mode (step mode s mv) := by
   cases mv with
   | batcher p c op => exact step_batcher mode s h p c op
+  | send p c body => exact step_send mode s h p c body
   | muxSend k => exact step_muxSend mode s h k
   | demux k => exact step_demux mode s h k
   | recv c => exact step_recv mode s h c
